@@ -71,7 +71,13 @@ func protoRunFull(p *Prog, fn *ssa.Function, structPoints bool, contracts map[st
 		e.restarts = nil
 	}
 	var args []sVal
-	for pi, prm := range fn.Params {
+	canon := canonParams[p.FuncName(fn)]
+	for pi, prm0 := range fn.Params {
+		// the specifications name parameters by the names of the pinned tree; a renamed parameter keeps its role by position
+		prm := namedParam{prm0, prm0.Name()}
+		if pi < len(canon) {
+			prm.name = canon[pi]
+		}
 		if len(alias) > 0 {
 			if j, ok := alias[0][pi]; ok && j < len(args) {
 				args = append(args, args[j]) // this parameter is the same object as an earlier one
@@ -266,6 +272,47 @@ func debugGlue(args []string) {
 			fmt.Printf(" #%d ret=[%s]\n     facts: %s\n     effects: %s\n", i, strings.Join(o.terms, " | "), strings.Join(fs, " ; "), strings.Join(es, ","))
 		}
 	}
+}
+
+// namedParam: a parameter with the canonical name the specifications use for its position
+type namedParam struct {
+	p    *ssa.Parameter
+	name string
+}
+
+func (n namedParam) Name() string      { return n.name }
+func (n namedParam) Type() types.Type { return n.p.Type() }
+
+// canonParams: entry point -> parameter names by position (receiver first) as the specifications spell them
+var canonParams = map[string][]string{
+	"sm2.DerivePublic":   {"priv"},
+	"sm2.GenerateKey":    {"rand"},
+	"sm2.CheckOnCurve":   {"x", "y"},
+	"sm2.TestPrivateKey": {"priv"},
+	"sm2.ZA":             {"id", "pubx", "puby"},
+	"sm2.Sign":           {"id", "pubx", "puby", "rand", "priv", "msg"},
+	"sm2.SignZa":         {"rand", "priv", "za", "msg"},
+	"sm2.SignHashed":     {"rand", "priv", "e"},
+	"sm2.Verify":         {"id", "pubx", "puby", "msg", "r", "s"},
+	"sm2.VerifyZa":       {"pubx", "puby", "za", "msg", "r", "s"},
+	"sm2.VerifyHashed":   {"pubx", "puby", "e", "r", "s"},
+	"sm3.(*SM3).Write":   {"sm3", "data"},
+	"sm3.(*SM3).Sum":     {"sm3", "in"},
+	"sm3.(*SM3).Reset":   {"sm3"},
+	"sm3.SumSM3":         {"data"},
+	"sm4.NewCipher":      {"key"},
+	"sm4.(*sm4GcmAsm).Seal": {"g", "dst", "nonce", "plaintext", "additionalData"},
+	"sm4.(*sm4GcmAsm).Open": {"g", "dst", "nonce", "ciphertext", "additionalData"},
+	"sm4.(*sm4Cipher).Encrypt": {"sm4", "dst", "src"}, "sm4.(*sm4Cipher).Decrypt": {"sm4", "dst", "src"},
+	"sm4.(*sm4CipherAsm).Encrypt": {"sm4", "dst", "src"}, "sm4.(*sm4CipherAsm).Decrypt": {"sm4", "dst", "src"},
+	"sm4.encryptX2": {"sm4", "dst", "src"}, "sm4.decryptX2": {"sm4", "dst", "src"},
+	"sm2/internal/fiat.(*SM2Element).SetBytes":       {"e", "v"},
+	"sm2/internal/fiat.(*SM2ScalarElement).SetBytes": {"e", "v"},
+	"sm2/internal/fiat.(*SM2Element).IsZero":         {"e"},
+	"sm2/internal/fiat.(*SM2ScalarElement).IsZero":   {"e"},
+	"sm2/internal.(*SM2Point).SetBytes":              {"p", "b"},
+	"sm2/internal.(*SM2Point).IsInfinity":            {"p"},
+	"sm2/internal.Sm2CheckOnCurve":                   {"x", "y"},
 }
 
 var protoStreamMode bool
